@@ -395,6 +395,42 @@ def c15_8(ctx):
     return out
 
 
+def c15_11(ctx):
+    """SIBLING: recovery treats threshold 1 specially (the share *is* the secret, no interpolation); the splitter must make the same
+    distinction on the same quantity -- the threshold k, not the share count n.  With `n == 1` as the test, 1-of-n shares for n >= 2
+    come from the polynomial path and each of them recovers a different, wrong secret"""
+    spec = "shamir:ShareSet.split_secret"
+    mod, fn = rl.get(ctx, spec)
+    ps = param_names(fn)
+    if len(ps) < 4:
+        raise AnalysisError("split_secret signature changed: %s" % ps)
+    secret, k, n = ps[1], ps[2], ps[3]
+    cfg = cfg_of(fn)
+    arms = []
+    for t in cfg.tests():
+        for b, lab in cfg.succ[t.id]:
+            nb = cfg.nodes[b]
+            if nb.kind == "return" and nb.ast is not None and nb.ast.value is not None and any(isinstance(x, ast.Name) and x.id == secret for x in ast.walk(nb.ast.value)) \
+                    and not any(isinstance(x, ast.Call) for x in ast.walk(nb.ast.value)):
+                arms.append((t, lab, nb))
+    if not arms:
+        return [ctx.err(spec, "the arm that hands out the secret itself (threshold 1) was not found", fn, mod)]
+    out = []
+    for t, lab, nb in arms:
+        rk = rl.rel(t.ast, lambda e: isinstance(e, ast.Name) and e.id == k, lambda e: isinstance(e, ast.Constant) and e.value == 1)
+        rn = rl.rel(t.ast, lambda e: isinstance(e, ast.Name) and e.id == n, lambda e: isinstance(e, ast.Constant) and e.value == 1)
+        taken_when = lambda r: (r == "==" and lab is True) or (r == "!=" and lab is False)
+        if rk and taken_when(rk):
+            out.append(ctx.ok(spec, "the secret itself is the share exactly when the threshold `%s` is 1 (`%s`), as recovery assumes" % (k, ast.unparse(t.ast)), t.ast, mod,
+                              key="threshold-one"))
+        elif rn and taken_when(rn):
+            out.append(ctx.bad(spec, "the secret itself is the share when the *share count* `%s` is 1 (`%s`), but recovery takes the shortcut when the *threshold* is 1: "
+                                     "1-of-n shares with n >= 2 are interpolated values and each recovers a wrong secret" % (n, ast.unparse(t.ast)), t.ast, mod, key="threshold-one"))
+        else:
+            out.append(ctx.err(spec, "test `%s` guarding the threshold-1 arm not recognised" % ast.unparse(t.ast), t.ast, mod))
+    return out
+
+
 def c15_9(ctx):
     """MEMO: a recovered / decrypted secret is not remembered under a key that leaves out the passphrase or the shares"""
     from sa.memo import memo_obligation
@@ -470,5 +506,6 @@ OBLIGATIONS = [
     ("C15.8", "BITS layout", c15_8),
     ("C15.9", "MEMO", c15_9),
     ("C15.10", "PAIRING", c15_10),
+    ("C15.11", "SIBLING special case", c15_11),
 ]
 FLOORS = {"C15.1": 4, "C15.3": 3, "C15.4": 7, "C15.5": 3, "C15.6": 8, "C15.7": 8, "C15.8": 2}
